@@ -1,3 +1,4 @@
+import BalmProofs.AllOpsPres
 import BalmProofs.OwnBridge
 import BalmProofs.JudgeExact
 import BalmProofs.WeakSpec
